@@ -1,28 +1,29 @@
-(** C22 — correspondence cases: one history of EventTx submissions against one
-    mempool instance, with the reply class and the pool membership the Go
-    mempool reported after every submission. *)
+(** C22 — correspondence cases: one history of EventTx / EventAddDelayTx /
+    EventAddBlock messages against one mempool instance, with the reply class
+    and the pool membership the Go mempool reported after every message (for a
+    block: after the delayed transactions it released have been answered). *)
 From Coq Require Import List ZArith NArith Bool.
-From C33 Require Import Lib.Harness C22.Model C22.Spec.
+From C33 Require Import Lib.Harness C22.Model C22.Spec C22.ModelH C22.SpecH.
 Import ListNotations.
 Open Scope Z_scope.
 
-(** step = (submission, reply class, ids present in the pool afterwards
+(** step = (message, reply class (0 for a block), ids present in the pool afterwards
     (ascending, among all hashes of the history), pool size afterwards) *)
-Definition stepT : Type := (submission * N * list N * Z)%type.
+Definition stepT : Type := (op * N * list N * Z)%type.
 
 Inductive case :=
-| CHist (c : config) (steps : list stepT).
+| CHist (sc : scfg) (h0 : hdr) (steps : list stepT).
 
 Definition ids_of (p : pool) : list N := sort_n (map t_id p).
 
 (** known findings (codes of known_findings/C22.json): narrow signatures of an
-    accepted submission that is not acceptable *)
-Definition kf_code (c : config) (p : pool) (s : sub) : N :=
+    accepted submission that is not acceptable; [pt]/[p]: the pools of [acceptable_at] *)
+Definition kf_code_at (c : config) (pt p : pool) (s : sub) : N :=
   match txs_of s with
   | None => 0%N
   | Some ts =>
       let late := acc_late c p s ts in
-      let fee := fee_meets c p s ts in
+      let fee := fee_meets c pt s ts in
       let ex := cl_exp_on c ts in
       if s_forward s then
         (* 1: forwarded on a parachain node; the checks behind the shortcut still hold *)
@@ -49,48 +50,89 @@ Definition kf_code (c : config) (p : pool) (s : sub) : N :=
       else 0%N
   end.
 
-(** the measured facts respect the relations the theorems assume ([facts_consistent]) *)
-Definition msg_consistent (m : submission) : bool :=
-  match m with STx s => facts_consistent s | SNil => true end.
+Definition kf_code (c : config) (p : pool) (s : sub) : N := kf_code_at c p p s.
 
-Fixpoint check_steps_model (c : config) (pm : pool) (steps : list stepT) : bool :=
-  match steps with
-  | [] => true
-  | (m, reply, present, size) :: tl =>
-      match pipeline c pm m with
-      | (rm, pm') =>
-          N.eqb rm reply && list_eqb N.eqb (ids_of pm') present && (pool_size pm' =? size)
-          && msg_consistent m && check_steps_model c pm' tl
+(** a block step that fails the oracle: the finding of the first added entry that is not
+    acceptable, provided every added entry is a delayed submission the oracle knows *)
+Definition block_kf (sc : scfg) (ss : sstate) (b : blk) (present : list N) : N :=
+  let c := view sc (hdr_update (ss_hdr ss) b) in
+  match block_news ss b present with
+  | Some (surv, news) =>
+      let final := surv ++ map s_outer news in
+      match filter (fun s => negb (acceptable_at c surv (without (t_id (s_outer s)) final) s)) news with
+      | s :: _ => kf_code_at c surv (without (t_id (s_outer s)) final) s
+      | [] => 0%N
+      end
+  | None => 0%N
+  end.
+
+(** the measured facts respect the relations the theorems assume ([facts_consistent]); delayed
+    transactions are never ones to be forwarded (they would leave through a grpc client) *)
+Definition op_consistent (o : op) : bool :=
+  forallb facts_consistent (subs_of_op o)
+  && match o with
+     | OTx _ => true
+     | _ => forallb (fun s => negb (s_forward s)) (subs_of_op o)
+     end.
+
+(** the pool-age rule (600 s) is outside the model: the clock stays inside that window *)
+Definition clock_ok (h0 : hdr) (o : op) : bool :=
+  match o with
+  | OBlock b => (h_now h0 <=? b_now b) && (b_now b <? h_now h0 + 600)
+  | _ => true
+  end.
+
+Definition step_agrees (sc : scfg) (h0 : hdr) (st : state) (x : stepT) : bool * state :=
+  match x with
+  | (o, reply, present, size) =>
+      match hstep sc st o with
+      | (rm, st', _) =>
+          (N.eqb rm reply && list_eqb N.eqb (ids_of (st_pool st')) present && (pool_size (st_pool st') =? size)
+           && op_consistent o && clock_ok h0 o, st')
       end
   end.
 
-(** [pm]: model pool; [pi]: the implementation's pool as far as its replies and
-    membership answers determine it *)
-Fixpoint check_steps (c : config) (pm pi : pool) (steps : list stepT) : verdict :=
+Fixpoint check_steps_model (sc : scfg) (h0 : hdr) (st : state) (steps : list stepT) : bool :=
+  match steps with
+  | [] => true
+  | x :: tl =>
+      match step_agrees sc h0 st x with
+      | (a, st') => a && check_steps_model sc h0 st' tl
+      end
+  end.
+
+(** [st]: model state; [ss]: the oracle's state, built from the implementation's answers only *)
+Fixpoint check_steps (sc : scfg) (h0 : hdr) (st : state) (ss : sstate) (steps : list stepT) : verdict :=
   match steps with
   | [] => ok_verdict
-  | (m, reply, present, size) :: tl =>
-      match pipeline c pm m with
-      | (rm, pm') =>
-          let agree := N.eqb rm reply && list_eqb N.eqb (ids_of pm') present && (pool_size pm' =? size)
-                       && msg_consistent m in
-          let pi' := if N.eqb reply R_OK then match m with STx s => pi ++ [s_outer s] | SNil => pi end else pi in
-          let spec := step_ok c pi m reply (ids_of pi) present && (size =? Z.of_nat (length present)) in
-          if spec then
-            match check_steps c pm' pi' tl with
-            | (a, s, k) => (agree && a, s, k)
-            end
-          else
-            (* first divergence from the spec: classify it; the model must agree on the whole history *)
-            let k := if N.eqb reply R_OK && list_eqb N.eqb present (ids_of pi')
-                        && (size =? Z.of_nat (length present)) then
-                       match m with STx s => kf_code c pi s | SNil => 0%N end
-                     else 0%N in
-            (agree && check_steps_model c pm' tl, false, k)
+  | ((o, reply, present, size) as x) :: tl =>
+      match step_agrees sc h0 st x with
+      | (agree, st') =>
+          match hstep_ok sc ss o reply present with
+          | (okb, ss') =>
+              let spec := okb && (size =? Z.of_nat (length present)) in
+              if spec then
+                match check_steps sc h0 st' ss' tl with
+                | (a, s, k) => (agree && a, s, k)
+                end
+              else
+                (* first divergence from the spec: classify it; the model must agree on the whole history *)
+                let k :=
+                  if (size =? Z.of_nat (length present)) then
+                    match o with
+                    | OTx (STx s) =>
+                        if N.eqb reply R_OK && list_eqb N.eqb present (ids_of (ss_pool ss'))
+                        then kf_code (view sc (ss_hdr ss)) (ss_pool ss) s else 0%N
+                    | OBlock b => block_kf sc ss b present
+                    | _ => 0%N
+                    end
+                  else 0%N in
+                (agree && check_steps_model sc h0 st' tl, false, k)
+          end
       end
   end.
 
 Definition check_case (x : case) : verdict :=
   match x with
-  | CHist c steps => check_steps c [] [] steps
+  | CHist sc h0 steps => check_steps sc h0 (mkSt h0 [] []) (mkSS h0 [] []) steps
   end.
